@@ -5,11 +5,17 @@
    Known_C10_long) is not proved - and is itself FALSE for an abstract adapter (C12_statement2_refuted: its adapter premises
    miss MapPrefix); the statement with the premises AdapterUSV and MapPrefix added is C12_statement3
    (Proofs/Idna_C12b_Stmt3.v), of which C12_ascii_form proves: the ASCII form is a fixed point of ToASCII and ToUnicode
-   reports no error for it; see theorem_notes in tools/props_d/C12.py. *)
+   reports no error for it, and C12_u_of_a proves clause u_of_a IN FULL (ToUnicode of the ASCII form = ToUnicode of the
+   name, same text, no error; no exclusion of Known_C12 / Known_C11 needed).  C12_statement3 as a whole is FALSE for an
+   abstract adapter (C12_statement3_refuted: its premises do not make a text accepted by normalize_validate a fixed point
+   of map_normalize, so clause a_of_u fails); C12_statement4 (Proofs/Idna_C12c_Stmt4.v) adds that premise, NvMapFix
+   (sampled as ok_nv_mapfix), and is stated; C12_round_partial proves its clauses u_of_a, a_of_u and u_idem on the class
+   of names without an accepted xn-- input label (PunyIn d = false); see theorem_notes in tools/props_d/C12.py. *)
 From RU Require Import Base.Prelude Base.Utf8 Base.Utf8Facts Base.U32_c13 Gen.Tables Model.Punycode Model.Uts46
   Proofs.Idna_Sim Proofs.Idna_Api Proofs.Idna_Known Proofs.Idna_Hyp Proofs.Idna_C12 Proofs.Idna_Tables Proofs.Idna_PunyRT
   Proofs.Idna_C10b_Long Proofs.Idna_C10b_Stmt Proofs.Idna_C10b_AsciiInner Proofs.Idna_C10b_AsciiWalk Proofs.Idna_C12_Ascii
-  Proofs.Idna_C10_Inner Proofs.Idna_WalkEnc Proofs.Idna_C10c_Drun Proofs.Idna_C10c_Example Proofs.Idna_C10c_Refute Proofs.Idna_C12b_Stmt3.
+  Proofs.Idna_C10_Inner Proofs.Idna_WalkEnc Proofs.Idna_C10c_Drun Proofs.Idna_C10c_Example Proofs.Idna_C10c_Refute Proofs.Idna_C12b_Stmt3
+  Proofs.Idna_C10_Deny Proofs.Idna_WalkFun Proofs.Idna_C10d_CaseLoop Proofs.Idna_C12c_Virtual Proofs.Idna_C12c_UofA Proofs.Idna_C12c_Stmt4 Proofs.Idna_C10c_Drun Proofs.Idna_C12c_ULabel Proofs.Idna_C12c_Round.
 
 (* the four clauses on names of the fastest tier (lower-case letters and dots), every adapter *)
 Theorem C12_fast_partial : forall A cfg d deny hy p, bytes d -> fast_tier d d = None ->
@@ -90,6 +96,132 @@ Example C12_ascii_form_premises_hold :
   to_ascii lowsan true W_idem3 DENY_URL HCheck DIgnore = Ok (false, W_idem3_A) /\ Known_C10_long W_idem3_A = false /\
   to_unicode lowsan true W_idem3_A DENY_URL HCheck = UI false [97; 46; 98; 252; 99; 104; 101; 114] false.
 Proof. split; [exact lowsan_premises|exact c12_ascii_form_premises_hold]. Qed.
+
+(* clause u_of_a IN FULL, every input (non-ASCII and xn-- labels included, INSIDE Known_C12 / Known_C11 too), every deny
+   list the API can build, every hyphen mode, outside Known_C10_long (F-C10-1): ToUnicode of the ASCII form is ToUnicode of
+   the name - same text, no error, no panic.  Premises: the sampled adapter facts of C10_idem3 *)
+Theorem C12_u_of_a : forall A cfg, AdapterOK A -> AdapterUSV A -> NvNoTrunc A -> NvIdem A -> AsciiNoMark A -> MapPrefix A ->
+  forall d deny hy b a, bytes d -> valid_deny deny ->
+  to_ascii A cfg d deny hy DIgnore = Ok (b, a) -> Known_C10_long a = false ->
+  ui_text (to_unicode A cfg a deny hy) = ui_text (to_unicode A cfg d deny hy) /\
+  ui_err (to_unicode A cfg a deny hy) = false /\ ui_err (to_unicode A cfg d deny hy) = false /\
+  ui_panics (to_unicode A cfg a deny hy) = false /\ ui_panics (to_unicode A cfg d deny hy) = false.
+Proof. exact c12_u_of_a. Qed.
+Check C12_u_of_a : forall A cfg, AdapterOK A -> AdapterUSV A -> NvNoTrunc A -> NvIdem A -> AsciiNoMark A -> MapPrefix A ->
+  forall d deny hy b a, bytes d -> valid_deny deny ->
+  to_ascii A cfg d deny hy DIgnore = Ok (b, a) -> Known_C10_long a = false ->
+  ui_text (to_unicode A cfg a deny hy) = ui_text (to_unicode A cfg d deny hy) /\
+  ui_err (to_unicode A cfg a deny hy) = false /\ ui_err (to_unicode A cfg d deny hy) = false /\
+  ui_panics (to_unicode A cfg a deny hy) = false /\ ui_panics (to_unicode A cfg d deny hy) = false.
+Print Assumptions C12_u_of_a.
+
+Example C12_u_of_a_premises_hold :
+  (AdapterOK lowsan /\ AdapterUSV lowsan /\ NvNoTrunc lowsan /\ NvIdem lowsan /\ AsciiNoMark lowsan /\ MapPrefix lowsan) /\
+  to_ascii lowsan true W_idem3 DENY_URL HCheck DIgnore = Ok (false, W_idem3_A) /\ Known_C10_long W_idem3_A = false /\
+  to_unicode lowsan true W_idem3 DENY_URL HCheck = UI false [97; 46; 98; 252; 99; 104; 101; 114] false /\
+  to_unicode lowsan true W_idem3_A DENY_URL HCheck = UI false [97; 46; 98; 252; 99; 104; 101; 114] false.
+Proof. split; [exact lowsan_premises|exact c12_u_of_a_example]. Qed.
+
+(* ToASCII and ToUnicode of a name read off its virtual run (every label processed, none passed through): if the virtual
+   run succeeds, its buffer has the bidi verdict bd and - when bd is set - the labels behind the first k (k at most the
+   number of leading pass-through labels of the name) pass the bidi rule, then ToUnicode shows the Unicode texts of the
+   virtual pairs, without error.  Premise: Redisc (a consequence of map_normalize [] = []) *)
+Theorem C12_virtual_unicode : forall A cfg deny hy, DenyUpper deny -> LdhFree deny -> Redisc A cfg deny ->
+  forall d Ys Fss k bd, bytes d -> proc_all A cfg deny hy (split_on DOT d) = SOk (Ys, Fss) -> VBk A cfg k bd Ys ->
+  (k <= length (ptake (split_on DOT d)))%nat ->
+  exists b ov, outs cfg uT (VL Ys) (concat Fss) = inl ov /\ to_unicode A cfg d deny hy = UI b (join_dots ov) false.
+Proof. exact virtual_unicode. Qed.
+Check C12_virtual_unicode : forall A cfg deny hy, DenyUpper deny -> LdhFree deny -> Redisc A cfg deny ->
+  forall d Ys Fss k bd, bytes d -> proc_all A cfg deny hy (split_on DOT d) = SOk (Ys, Fss) -> VBk A cfg k bd Ys ->
+  (k <= length (ptake (split_on DOT d)))%nat ->
+  exists b ov, outs cfg uT (VL Ys) (concat Fss) = inl ov /\ to_unicode A cfg d deny hy = UI b (join_dots ov) false.
+Print Assumptions C12_virtual_unicode.
+
+(* C12_statement3 is false for an abstract adapter that satisfies its six adapter premises (mapad: map_normalize rewrites
+   U+00E9 to U+00EA, normalize_validate accepts every scalar value): xn--9ca is accepted, ToUnicode shows U+00E9, ToASCII
+   of that is xn--bda.  A refutation of the STATEMENT (the premise NvMapFix is missing), not of the crate *)
+Theorem C12_statement3_refuted : exists A cfg,
+  AdapterOK A /\ AdapterUSV A /\ NvNoTrunc A /\ NvIdem A /\ AsciiNoMark A /\ MapPrefix A /\ ~ C12_statement3 A cfg.
+Proof. exact c12_statement3_refuted. Qed.
+Check C12_statement3_refuted : exists A cfg,
+  AdapterOK A /\ AdapterUSV A /\ NvNoTrunc A /\ NvIdem A /\ AsciiNoMark A /\ MapPrefix A /\ ~ C12_statement3 A cfg.
+Print Assumptions C12_statement3_refuted.
+
+Theorem C12_statement3_witness :
+  to_ascii mapad false W_stmt3 DENY_EMPTY HAllow DIgnore = Ok (true, W_stmt3) /\
+  Known_C12 mapad false W_stmt3 DENY_EMPTY HAllow = false /\ Known_C11 mapad false W_stmt3 DENY_EMPTY HAllow = false /\
+  Known_C10_long W_stmt3 = false /\
+  to_unicode mapad false W_stmt3 DENY_EMPTY HAllow = UI false [233] false /\
+  to_ascii mapad false (utf8_encode [233]) DENY_EMPTY HAllow DIgnore = Ok (false, W_stmt3_2).
+Proof. exact w_c12_stmt3. Qed.
+Check C12_statement3_witness :
+  to_ascii mapad false W_stmt3 DENY_EMPTY HAllow DIgnore = Ok (true, W_stmt3) /\
+  Known_C12 mapad false W_stmt3 DENY_EMPTY HAllow = false /\ Known_C11 mapad false W_stmt3 DENY_EMPTY HAllow = false /\
+  Known_C10_long W_stmt3 = false /\
+  to_unicode mapad false W_stmt3 DENY_EMPTY HAllow = UI false [233] false /\
+  to_ascii mapad false (utf8_encode [233]) DENY_EMPTY HAllow DIgnore = Ok (false, W_stmt3_2).
+Print Assumptions C12_statement3_witness.
+
+(* the premises of the corrected statement C12_statement4 (those of C12_statement3 and NvMapFix) are satisfiable, the
+   adapter of the refutation violates NvMapFix, and a non-ASCII name goes through all four clauses *)
+Example C12_statement4_premises_hold :
+  (AdapterOK lowsan4 /\ AdapterUSV lowsan4 /\ NvNoTrunc lowsan4 /\ NvIdem lowsan4 /\ AsciiNoMark lowsan4 /\ MapPrefix lowsan4 /\ NvMapFix lowsan4) /\
+  ~ NvMapFix mapad /\
+  to_ascii lowsan4 true W_idem3 DENY_URL HCheck DIgnore = Ok (false, W_idem3_A) /\
+  to_unicode lowsan4 true W_idem3 DENY_URL HCheck = UI false [97; 46; 98; 252; 99; 104; 101; 114] false /\
+  to_ascii lowsan4 true (utf8_encode [97; 46; 98; 252; 99; 104; 101; 114]) DENY_URL HCheck DIgnore = Ok (false, W_idem3_A).
+Proof.
+  split; [exact lowsan4_premises|]. split; [exact mapad_not_mapfix|].
+  destruct w_c12_stmt4 as (H1 & _ & _ & _ & H2 & _ & H3 & _). split; [exact H1|]. split; [exact H2|exact H3].
+Qed.
+
+(* C12_statement4, clauses u_of_a, a_of_u and u_idem, on the class PunyIn d = false (the accepted run recorded no xn--
+   input label: no entry of already_punycode is MixedCasePunycode; non-ASCII labels, ideographic dots, mapped characters
+   are all inside the class), outside Known_C12 and Known_C10_long - Known_C11 need not be excluded: ToUnicode of the
+   ASCII form is ToUnicode of the name, ToASCII of the (UTF-8 form of the) Unicode form is the ASCII form, ToUnicode is
+   idempotent.  Premises: the seven sampled adapter facts of C12_statement4.
+   STILL MISSING from C12_statement4: clause ui (to_user_interface with an arbitrary display policy), and the clauses
+   a_of_u / u_idem for names with an accepted xn-- input label, where the only missing fact is about Punycode:
+   encode_internal (decode U8Internal p) = map to_lower p *)
+Theorem C12_round_partial : forall A cfg,
+  AdapterOK A -> AdapterUSV A -> NvNoTrunc A -> NvIdem A -> AsciiNoMark A -> MapPrefix A -> NvMapFix A ->
+  forall d deny hy b a, bytes d -> valid_deny deny -> Known_C12 A cfg d deny hy = false -> PunyIn A cfg d deny hy = false ->
+  to_ascii A cfg d deny hy DIgnore = Ok (b, a) -> Known_C10_long a = false ->
+  let u := ui_text (to_unicode A cfg d deny hy) in
+  (ui_text (to_unicode A cfg a deny hy) = u /\ ui_err (to_unicode A cfg a deny hy) = false) /\
+  (exists b', to_ascii A cfg (utf8_encode u) deny hy DIgnore = Ok (b', a)) /\
+  (ui_text (to_unicode A cfg (utf8_encode u) deny hy) = u /\ ui_err (to_unicode A cfg (utf8_encode u) deny hy) = false).
+Proof. exact c12_round. Qed.
+Check C12_round_partial : forall A cfg,
+  AdapterOK A -> AdapterUSV A -> NvNoTrunc A -> NvIdem A -> AsciiNoMark A -> MapPrefix A -> NvMapFix A ->
+  forall d deny hy b a, bytes d -> valid_deny deny -> Known_C12 A cfg d deny hy = false -> PunyIn A cfg d deny hy = false ->
+  to_ascii A cfg d deny hy DIgnore = Ok (b, a) -> Known_C10_long a = false ->
+  let u := ui_text (to_unicode A cfg d deny hy) in
+  (ui_text (to_unicode A cfg a deny hy) = u /\ ui_err (to_unicode A cfg a deny hy) = false) /\
+  (exists b', to_ascii A cfg (utf8_encode u) deny hy DIgnore = Ok (b', a)) /\
+  (ui_text (to_unicode A cfg (utf8_encode u) deny hy) = u /\ ui_err (to_unicode A cfg (utf8_encode u) deny hy) = false).
+Print Assumptions C12_round_partial.
+
+Example C12_round_premises_hold :
+  (AdapterOK lowsan4 /\ AdapterUSV lowsan4 /\ NvNoTrunc lowsan4 /\ NvIdem lowsan4 /\ AsciiNoMark lowsan4 /\ MapPrefix lowsan4 /\ NvMapFix lowsan4) /\
+  Known_C12 lowsan4 true W_idem3 DENY_URL HCheck = false /\ PunyIn lowsan4 true W_idem3 DENY_URL HCheck = false /\
+  to_ascii lowsan4 true W_idem3 DENY_URL HCheck DIgnore = Ok (false, W_idem3_A) /\ Known_C10_long W_idem3_A = false /\
+  to_unicode lowsan4 true W_idem3 DENY_URL HCheck = UI false [97; 46; 98; 252; 99; 104; 101; 114] false.
+Proof. split; [exact lowsan4_premises|exact c12_round_example]. Qed.
+
+(* the per-label fact behind it: the fail-fast label step applied to the UTF-8 form of a non-ASCII text dbl that
+   normalize_validate fixes, that passes the deny list and check_label and does not start with xn--, returns the buffer
+   label dbl with the entry AalOther (uts46.rs copies the ASCII prefix but its last character and maps the rest) *)
+Theorem C12_label_unicode : forall A cfg deny hy, DenyUpper deny -> MapPrefix A -> NvMapFix A ->
+  forall dbl, normalize_validate A dbl = dbl -> Forall (gc (dd deny)) dbl -> chk A cfg hy dbl -> usv_list dbl ->
+  is_ascii_l dbl = false -> starts_with dbl XN_PREFIX = false ->
+  pres A cfg deny hy (utf8_encode dbl) = SOk (dbl, false, [AalOther]).
+Proof. exact pres_unicode. Qed.
+Check C12_label_unicode : forall A cfg deny hy, DenyUpper deny -> MapPrefix A -> NvMapFix A ->
+  forall dbl, normalize_validate A dbl = dbl -> Forall (gc (dd deny)) dbl -> chk A cfg hy dbl -> usv_list dbl ->
+  is_ascii_l dbl = false -> starts_with dbl XN_PREFIX = false ->
+  pres A cfg deny hy (utf8_encode dbl) = SOk (dbl, false, [AalOther]).
+Print Assumptions C12_label_unicode.
 
 (* C12_statement2 is false for an abstract adapter that satisfies its four adapter premises (ctxad: U+00EA becomes U+00EB
    exactly after "ab"): outside Known_C12, Known_C11 and Known_C10_long, ToUnicode of the ASCII form xn--ab-fja of
